@@ -766,6 +766,10 @@ func randFileCase(rng *rand.Rand) fileCase {
 		if rng.Intn(10) == 0 && len(dirs) > 0 {
 			p += ":" + dirs[rng.Intn(len(dirs))] // AddPath splits at colons
 		}
+		if rng.Intn(25) == 0 {
+			// not a clean relative path: the model answers `outside` when the search reaches it
+			p = []string{"./" + p, p + "/", "a//b", "../" + filepath.Base(p)}[rng.Intn(4)]
+		}
 		c.Add = append(c.Add, p)
 	}
 	if rng.Intn(5) == 0 {
